@@ -45,7 +45,8 @@ def run_parallel(scs, wd, tag, workers=8):
 
 
 def dconsts(N, T, mf=1, **o):
-    d = dict(N=N, T=T, MaxFaults=mf, VerifyShare=True, CheckVVecLen=True, CommitNeedsAll=True, ConfirmAll=True, ThresholdMode="gtHalf")
+    d = dict(N=N, T=T, MaxFaults=mf, VerifyShare=True, CheckVVecLen=True, CommitNeedsAll=True, ConfirmAll=True, ThresholdMode="gtHalf",
+             Initiator=1, OldCandidates=set(), StoreErrChecked=True)
     d.update(o)
     return d
 
@@ -61,8 +62,18 @@ def model_phase(prop, tier, wd, info):
         require_ok(r, "Dkg(%d,%d)" % (n, t))
         info["states"] += r.distinct
         info["transitions"] += r.generated
-    info["model_runs"].append(dict(module="Dkg", nts=nts, invariants=DINV, MaxFaults=1 if tier == "quick" else 2))
-    muts = {"C12": [dict(ThresholdMode="geHalf", _nt=(4, 2)), dict(ThresholdMode="any", _nt=(3, 1)), dict(ConfirmAll=False, _nt=(3, 2))],
+    # the requested name is already taken on some instances (an earlier generation among other instances of a larger cluster)
+    olds = 0
+    for n, t in [(2, 2), (3, 2)] if tier == "quick" else [(2, 2), (3, 2), (3, 3), (4, 3)]:
+        for init in range(1, n + 1):
+            r = tlc("Dkg", make_cfg(dconsts(n, t, 1, Initiator=init, OldCandidates=set(range(1, n + 1))), invariants=DINV), wd, name="Dkg_old", timeout=900)
+            require_ok(r, "Dkg(%d,%d,initiator %d, every set of old holders)" % (n, t, init))
+            info["states"] += r.distinct
+            info["transitions"] += r.generated
+            olds += 2 ** n
+    info["model_runs"].append(dict(module="Dkg", nts=nts, invariants=DINV, MaxFaults=1 if tier == "quick" else 2, configurations_with_old_holders=olds))
+    muts = {"C12": [dict(ThresholdMode="geHalf", _nt=(4, 2)), dict(ThresholdMode="any", _nt=(3, 1)), dict(ConfirmAll=False, _nt=(3, 2)),
+                    dict(StoreErrChecked=False, OldCandidates={3}, _nt=(3, 2))],
             "C13": [dict(VerifyShare=False, _nt=(3, 2)), dict(CheckVVecLen=False, _nt=(3, 2))]}.get(prop, [])
     for m in muts:
         n, t = m.pop("_nt")
@@ -173,6 +184,20 @@ def run_c12(tier, seed, wd, info, verdict):
                           faults=[dict(site="commit", to=to, kind="byzsig")])
                 scs.append(sc)
                 meta[sid] = sc
+    # the requested NAME IS ALREADY TAKEN on some instances: an earlier generation of the same name among n0 instances of a larger
+    # cluster, then the generation under test requested of an instance that does not hold the name (Dkg.tla: old holders).  The
+    # program chooses the participants; whenever one of them holds the old account it cannot store the new one - success may then
+    # not be reported (if it is, Agreement finds that participant holding another key).
+    nprior = 0
+    for m, (n0, t0), (n, t) in ((3, (2, 2), (2, 2)), (4, (3, 2), (3, 2)), (5, (3, 2), (3, 2)), (4, (2, 2), (2, 2)), (4, (2, 2), (3, 2)), (5, (3, 3), (4, 3))):
+        for rep in range(2 if tier == "quick" else 6):
+            k += 1
+            sid = "C12-%d" % k
+            sc = dict(id=sid, ids=list(range(1, m + 1)), n=n, t=t, initiator=0, initiator_nonholder=True, prior=dict(initiator=1 + (k + rep) % m, n=n0, t=t0),
+                      account="DW/g%d" % k, generate=True, probe=True)
+            scs.append(sc)
+            meta[sid] = sc
+            nprior += 1
     by = run_parallel(scs, wd, "c12")
     # clusters of REAL dirk binaries: each instance a process of the shipped program with its own wallet store, certificate and
     # configuration file, talking to its peers through the repository's own gRPC sender and receiver over mutual TLS
@@ -229,7 +254,13 @@ def run_c12(tier, seed, wd, info, verdict):
                           "generation %s (n=%d t=%d ids=%s initiator=%s): real run rejected by DkgTrace invariant %s %s" %
                           (sid, meta[sid]["n"], meta[sid]["t"], meta[sid]["ids"], meta[sid]["initiator"], violated, extra[1]),
                           dict(scenario=meta[sid], trace=seg[:60], invariant=violated, module="DkgTrace"))
-    return dict(scenarios=len(scs), successful_generations=nok, generations_on_clusters_of_dirk_binaries=len(bscs), of_which_successful=nbin, trace_events=len(lines),
+    taken = [by[sc_["id"]] for sc_ in scs if sc_.get("prior")]
+    prior_ok = sum(1 for evs_ in taken if any(e["ev"] == "Prior" and e["ok"] for e in evs_))
+    if prior_ok * 2 < nprior:
+        raise Inconclusive("only %d of %d earlier generations of the same name succeeded" % (prior_ok, nprior))
+    return dict(scenarios=len(scs), successful_generations=nok, name_already_taken=dict(scenarios=nprior, earlier_generation_succeeded=prior_ok,
+                second_generation_succeeded=sum(1 for evs_ in taken if any(e["ev"] == "Outcome" and e["ok"] for e in evs_))),
+                generations_on_clusters_of_dirk_binaries=len(bscs), of_which_successful=nbin, trace_events=len(lines),
                 sample=lines[index[0][0] - 1:index[0][1]][:8])
 
 
